@@ -10,7 +10,7 @@ pub fn lanes() -> Vec<Lane> {
     vec![
         Lane { name: "enums", count: |_| 1, run: enums_lane },
         Lane { name: "reject-sweep", count: |c| gen::sweep_count(23, if c.thorough() { 4 } else { 3 }), run: reject_sweep },
-        Lane { name: "records", count: |c| if c.thorough() { 1_000_000 } else { 50_000 }, run: records_lane },
+        Lane { name: "records", count: |c| if c.thorough() { 1_000_000 } else { 200_000 }, run: records_lane },
         Lane { name: "vcs", count: |c| if c.thorough() { 300_000 } else { 20_000 }, run: vcs_lane },
         Lane { name: "dep3", count: |c| if c.thorough() { 300_000 } else { 20_000 }, run: dep3_lane },
         Lane { name: "misc", count: |c| if c.thorough() { 300_000 } else { 20_000 }, run: misc_lane },
